@@ -415,6 +415,9 @@ class ListOfDirectPredecessorsGetter(
             expr.matrix.row_starts,
             expr.array]
 
+    def map_named_array(self, expr: NamedArray) -> list[ArrayOrNames]:
+        return [expr._container]
+
     def map_loopy_call(self, expr: LoopyCall) -> list[ArrayOrNames]:
         return [ary for ary in expr.bindings.values() if isinstance(ary, Array)]
 
